@@ -177,15 +177,22 @@ def _reference_elements(S, IP, QR):
                 worst = max(worst, float(onp.max(onp.abs(onp.asarray(sh.values).T @ n1 ** r - pts ** r))))
         S.ground('Interpolants/line_element_reproduces_monomials[order=%d]' % order, worst <= tol, detail='worst error %.3g' % worst)
         # face nodes of the triangle lie on the faces, in the order of the 1D element
-        pe = IP.make_parent_element_2d(order)
-        nodes = onp.asarray(pe.coordinates, dtype=float)
-        vn = onp.asarray(pe.vertexNodes)
-        ok = True
-        for f in range(3):
-            fn = onp.asarray(pe.faceNodes)[f]
-            a, b = nodes[vn[f]], nodes[vn[(f + 1) % 3]]
-            ok = ok and onp.allclose(nodes[fn], a[None, :] + n1[:, None] * (b - a)[None, :], atol=1e-13)
-        S.ground('Interpolants/face_nodes_match_line_element_nodes_on_each_face[order=%d]' % order, bool(ok))
+        for bubble in (False, True):
+            if bubble and order < 2:
+                continue
+            pe = IP.make_parent_element_2d_with_bubble(order) if bubble else IP.make_parent_element_2d(order)
+            nodes = onp.asarray(pe.coordinates, dtype=float)
+            vn = onp.asarray(pe.vertexNodes)
+            ok = True
+            for f in range(3):
+                fn = onp.asarray(pe.faceNodes)[f]
+                a, b = nodes[vn[f]], nodes[vn[(f + 1) % 3]]       # face f runs from vertex f to vertex f+1 (outward normal to its right)
+                ok = ok and onp.allclose(nodes[fn], a[None, :] + n1[:, None] * (b - a)[None, :], atol=1e-13)
+            # interior / face / vertex index tables partition the nodes
+            allf = set(onp.asarray(pe.faceNodes).ravel().tolist())
+            inter = set(onp.asarray(pe.interiorNodes).ravel().tolist())
+            ok = ok and not (allf & inter) and (allf | inter) == set(range(nodes.shape[0])) and set(vn.tolist()) <= allf
+            S.ground('Interpolants/face_nodes_match_line_element_nodes_on_each_face%s[order=%d]' % ('[bubble]' if bubble else '', order), bool(ok))
 
 
 # ---------------------------------------------------------------------------
